@@ -206,10 +206,22 @@ def gen_cases(ctx, tier):
     allsch = core.interleavings([1 + SLOW_WAIT, 1 + POST_WAKE])
     for init in (0, 1, 2):
         for (a, b) in pairs:
-            pick = allsch if not quick else rng.sample(allsch, 450)
+            pick = allsch if not quick else rng.sample(allsch, 1000)
             for sch in pick:
-                cases.append(core.fmt_case([200, init], [a, b], sch))
+                cases.append(core.fmt_case([300, init], [a, b], sch))
                 nex += 1
+    # three fibers: random interleavings of the same windows (two posts racing for one waiter, two
+    # waiters and one post, a trywait racing with the hand-over)
+    triples = [([(WAIT, 0)], [(POST, 0)], [(POST, 0)]), ([(WAIT, 0)], [(WAIT, 0)], [(POST, 0), (POST, 0)]),
+               ([(WAIT, 0)], [(TRY, 0)], [(POST, 0)]), ([(WAIT, 0), (POST, 0)], [(WAIT, 0)], [(POST, 0)]),
+               ([(TRY, 0), (WAIT, 0)], [(POST, 0)], [(WAIT, 0), (POST, 0)])]
+    ntri = 0
+    for _ in range(1500 if quick else 30000):
+        tr3 = rng.choice(triples)
+        sch = [0] * (1 + SLOW_WAIT) + [1] * (1 + SLOW_WAIT) + [2] * (2 + 2 * POST_WAKE)
+        rng.shuffle(sch)
+        cases.append(core.fmt_case([500, rng.choice([0, 0, 1])], list(tr3), sch))
+        ntri += 1
     # a waiter, a poster and a third call racing with the wake-up (post vs half-enqueued waiter)
     third = [[(POST, 0)], [(TRY, 0)], [(WAIT, 0), (POST, 0)], [(POST, 0), (WAIT, 0)]]
     ncov = 0
@@ -220,7 +232,7 @@ def gen_cases(ctx, tier):
                 cases.append(core.fmt_case([400, 0], [[(WAIT, 0)], [(POST, 0)], th], sched))
                 ncov += 1
     # (2) seeded random programs x schedules (three styles)
-    nrand = 1400 if quick else 40000
+    nrand = 4000 if quick else 60000
     for i in range(nrand):
         nt = rng.choice([2, 2, 3, 3, 4, 5])
         init = rng.choice([0, 0, 0, 1, 1, 2, 3])
@@ -229,7 +241,7 @@ def gen_cases(ctx, tier):
         length = rng.randint(5, 40 * nt)
         cases.append(core.fmt_case([1200, init], progs, core.random_sched(rng, nt, length, rng.randrange(3))))
     # balanced producer / consumer programs: every run must complete
-    nbal = 200 if quick else 4000
+    nbal = 500 if quick else 6000
     for i in range(nbal):
         nt = rng.choice([2, 3, 4])
         k = rng.randint(1, 3)
@@ -255,7 +267,7 @@ def gen_cases(ctx, tier):
             cases.append(core.fmt_case([300, init], [prog], []))
             cases.append(core.fmt_case([300, init], [prog, [(POST, 0)] * 3], [0] * 12 + [1] * 40 + [0] * 20))
             nseq += 2
-    ctx.coverage["case_distribution"] = {"exhaustive_pairs": nex, "covering_wake_vs_enqueue": ncov,
+    ctx.coverage["case_distribution"] = {"exhaustive_pairs": nex, "random_triples": ntri, "covering_wake_vs_enqueue": ncov,
                                          "random_programs": nrand, "balanced": nbal, "sequential_boundary": nseq,
                                          "total": len(cases)}
     return cases
